@@ -8,6 +8,7 @@ import (
 	"sort"
 	"strings"
 	"sync"
+	"time"
 
 	"verif/harness/vlib"
 )
@@ -170,6 +171,13 @@ func c17() {
 	for _, k := range []int{0, 1, 4096, 5000, 20000, total / 2, total - 1, total} {
 		hists = append(hists, hist{kind: "tool-exits-1-after-k-bytes", k: k}, hist{kind: "tool-killed-after-k-bytes", k: k})
 	}
+	// the same interruptions for binaries with long file names (cache file names are derived from them; NAME_MAX is 255)
+	for _, nl := range []int{1, 64, 200, 228, 229, 230, 231, 232, 235, 240, 243, 244, 245, 246, 250, 255} {
+		for _, k := range []int{100, 8192, total / 2} {
+			hists = append(hists, hist{kind: "kill-while-writing-long-name", k: k, k2: nl})
+		}
+		hists = append(hists, hist{kind: "tool-exits-1-long-name", k: 20000, k2: nl})
+	}
 	hists = append(hists, hist{kind: "tool-exits-1-before-output"}, hist{kind: "tool-exits-1-after-all-output"}, hist{kind: "tool-absent"}, hist{kind: "control-no-fault"},
 		hist{kind: "binary-replaced"}, hist{kind: "binary-replaced-after-interrupted-run", k: 8192})
 	for k := 1; k <= run.N(24, 80); k++ {
@@ -209,6 +217,9 @@ func c17() {
 		}
 		defer th.Remove()
 		target := filepath.Join(th.Dir, "target")
+		if strings.HasSuffix(h.kind, "-long-name") {
+			target = filepath.Join(th.Dir, strings.Repeat("n", h.k2))
+		}
 		copyFile(target, fx.binA)
 		var steps []string
 		step := func(tr vlib.ToolRun, what string) *vlib.ToolResult {
@@ -256,6 +267,16 @@ func c17() {
 					map[string]any{"check": "C17", "history": h.kind, "k": h.k, "steps": steps})
 				return
 			}
+		case "kill-while-writing-long-name":
+			res := step(vlib.ToolRun{Argv: argv(target), FakeMode: "block", Listing: fx.listA, K: h.k, KillAfter: true, Timeout: 20 * time.Second}, fmt.Sprintf("run 1: binary name of %d characters, disassembler emits %d bytes and blocks, profiler SIGKILLed", h.k2, h.k))
+			if res == nil {
+				return
+			}
+			if res.Killed {
+				run.Count("real_kills", 1)
+			} // otherwise the profiler ended by itself (e.g. file name too long): nothing was interrupted
+		case "tool-exits-1-long-name":
+			step(vlib.ToolRun{Argv: argv(target), FakeMode: "fail-partial", Listing: fx.listA, K: h.k}, fmt.Sprintf("run 1: binary name of %d characters, disassembler prints %d bytes and exits 1", h.k2, h.k))
 		case "two-interruptions":
 			for _, k := range []int{h.k, h.k2} {
 				res := step(vlib.ToolRun{Argv: argv(target), FakeMode: "block", Listing: fx.listA, K: k, KillAfter: true}, fmt.Sprintf("interrupted run: %d bytes then SIGKILL", k))
